@@ -140,26 +140,78 @@ def reply_scope(b):
     return (b.crate.startswith("ethercrab") or b.crate.startswith("verif")) and not send_side(b)
 
 
+def _is_view_len(prog, b, op):
+    """Is the operand the view's length: a read of self.len, or the accessor that returns the field unchanged?"""
+    if q.is_field_read(b, op, "ReceivedPdu", "len"):
+        return True
+    pl = q.op_place(op) if hasattr(q, "op_place") else None
+    from .core import op_place as _opl
+
+    pl = _opl(op)
+    if pl is None or pl["p"]:
+        return False
+    for (_, _, kind, payload) in b.defs().get(pl["l"], []):
+        if kind == "call" and payload.is_("ReceivedPdu::len"):
+            ln = prog.body("ReceivedPdu::len")
+            rl = frozenset().union(*[Prov(ln)._of_rvalue(p["rv"]) for (_, _, k, p) in ln.defs().get(0, []) if k == "assign"]) if ln.defs().get(0) else frozenset()
+            return has_root(rl, "field", "ReceivedPdu", "len") and not has_root(rl, "binop")
+        if kind == "assign" and payload["rv"]["k"] == "use":
+            return _is_view_len(prog, b, payload["rv"]["a"][0])
+    return False
+
+
+def _clamped_to_len(prog, b, op, depth=0):
+    """Is the operand at most the view's length?  min(requested, len) in either order, or a value that is `len` on one
+    path and the requested amount on a path dominated by the edge on which requested <= len."""
+    from .core import op_place as _opl
+
+    if depth > 5:
+        return False
+    if _is_view_len(prog, b, op):
+        return True
+    pl = _opl(op)
+    if pl is None or pl["p"]:
+        return False
+    ds = b.defs().get(pl["l"], [])
+    if not ds:
+        return False
+    pr = Prov(b)
+    for (bi, si, kind, payload) in ds:
+        if kind == "call" and (payload.decl_s or "").split("::")[-1] == "min" and len(payload.args) == 2:
+            if any(_is_view_len(prog, b, a) for a in payload.args):
+                continue
+            return False
+        if kind == "assign" and payload["rv"]["k"] == "use":
+            src = payload["rv"]["a"][0]
+            if _clamped_to_len(prog, b, src, depth + 1):
+                continue
+            # the requested amount itself, but only where it was compared and found <= len
+            ok = False
+            for cd in q.conds(b):
+                e = q.rel_edges(cd, lambda x: has_root(x, "arg", 2), lambda x: has_root(x, "field", "ReceivedPdu", "len") or has_root(x, "call", "ReceivedPdu::len"), pr)
+                for rel in ("Le", "Lt", "Eq"):
+                    t = e.get(rel)
+                    if t is not None and bi in q.edge_dominated(b, cd.bb, t) and has_root(pr.of_operand(src), "arg", 2):
+                        ok = True
+            if ok:
+                continue
+            return False
+        return False
+    return True
+
+
 def guard_trim_min(prog):
     b = prog.body("ReceivedPdu::trim_front")
-    mins = [c for c in b.calls() if c.is_("Ord::min") or (c.decl_s or "").endswith("::min")]
-    if len(mins) != 1:
-        return False, "trim_front no longer clamps with a single min()"
-    pr = Prov(b)
-    r = pr.of_operand(mins[0].args[0]) | pr.of_operand(mins[0].args[1])
-    # the other operand is the view's length: the field itself or the accessor that returns it unchanged
-    direct = any(q.is_field_read(b, a, "ReceivedPdu", "len") for a in mins[0].args)
-    via_len = has_root(r, "call", "ReceivedPdu::len")
-    if via_len:
-        ln = prog.body("ReceivedPdu::len")
-        rl = frozenset().union(*[Prov(ln)._of_rvalue(p["rv"]) for (_, _, k, p) in ln.defs().get(0, []) if k == "assign"]) if ln.defs().get(0) else frozenset()
-        via_len = has_root(rl, "field", "ReceivedPdu", "len") and not has_root(rl, "binop")
-    ok = has_root(r, "arg", 2) and (direct or via_len)
-    # every use of an amount (ptr add, len sub) is the min() result
+    # every amount used (pointer advance, length decrease) is clamped to the view's length
     adds = [c for c in b.calls() if (c.decl_s or "").endswith(("::add", "::byte_add"))]
-    for c in adds:
-        ok = ok and has_root(pr.of_operand(c.args[1]), "call", mins[0].name)
-    return ok, "the trim amount is min(requested, self.len()) for both the pointer advance and the length decrease" if ok else "trim amount is not min(requested, self.len())"
+    ok = bool(adds) and all(_clamped_to_len(prog, b, c.args[1]) for c in adds)
+    subs = []
+    for bi in sorted(b.live_blocks()):
+        for st in b.stmts(bi):
+            if st["k"] == "assign" and st["rv"]["k"] == "bin" and st["rv"]["op"].startswith("Sub"):
+                subs.append(st)
+    ok = ok and bool(subs) and all(_is_view_len(prog, b, st["rv"]["a"][0]) and _clamped_to_len(prog, b, st["rv"]["a"][1]) for st in subs)
+    return ok, "the trim amount is clamped to the view's length (min(requested, len), or an explicit comparison) for both the pointer advance and the length decrease" if ok else "trim amount is not min(requested, self.len())"
 
 
 def guard_view_bounds(prog):
